@@ -40,7 +40,8 @@
 #include <thread>
 
 using namespace verif;
-using boost::multiprecision::cpp_int;
+// fixed-width, allocation-free big integers (arbitrary-precision cpp_int allocates for every temporary, which is very slow under ASan)
+using cpp_int = boost::multiprecision::number<boost::multiprecision::cpp_int_backend<6400, 6400, boost::multiprecision::unsigned_magnitude, boost::multiprecision::unchecked, void>>;
 
 namespace c21ref {
 
@@ -326,19 +327,26 @@ struct Harness {
         RefReplay rep = sim.ledger.Replay(tip, /*keep_snapshots=*/true);
         VCHECK(rep.ok, "c21.model", "model rejects the active chain", rep.why);
         std::vector<uint256> path = sim.ledger.Path(tip);
-        bool use[NKIND];
+        bool use[NKIND], at_tip[NKIND] = {false, false, false, false};
         for (int k = 0; k < NKIND; ++k) {
             use[k] = slot[k].obj && slot[k].synced;
             if (use[k]) {
                 bool ok = slot[k].obj->BlockUntilSyncedToCurrentChain();
                 VCHECK(ok, "c21.index-synced", KIND_NAMES[k], "reports not synced after Sync() completed");
+                // After a pure disconnect (InvalidateBlock) no BlockConnected arrives: the index legitimately stays at the disconnected block, a DESCENDANT
+                // of the tip, until the next connection rewinds it (BlockUntilSyncedToCurrentChain uses the same rule).
                 IndexSummary sum = slot[k].obj->GetSummary();
-                VCHECK(sum.best_block_hash == tip, "c21.index-synced", KIND_NAMES[k], "best block", sum.best_block_hash.ToString(), "active tip", tip.ToString());
+                VCHECK(sim.ledger.Known(sum.best_block_hash) && sim.ledger.IsAncestor(tip, sum.best_block_hash), "c21.index-synced", KIND_NAMES[k], "best block",
+                       sum.best_block_hash.ToString(), "is neither the active tip nor a descendant of it", tip.ToString());
+                at_tip[k] = sum.best_block_hash == tip;
+                if (!at_tip[k]) st.cls("index-ahead-after-disconnect");
             }
         }
         uint256 prev_header; // filter header chain, genesis prev = 0
         std::map<COutPoint, std::pair<Txid, uint256>> spenders; // active chain: outpoint -> (spending txid, block)
         RefUtxo running;
+        cpp_int acc = 1;
+        bool have_acc = false;
         for (const uint256& bh : path) {
             const RefBlock& b = sim.ledger.At(bh);
             const CBlockIndex* pi;
@@ -346,6 +354,8 @@ struct Harness {
             VCHECK(pi != nullptr, "c21.model", "active block unknown to the node");
             // ---- element set + spenders from the model
             std::set<std::vector<uint8_t>> elements;
+            bool block_spent = false;
+            std::vector<COutPoint> created;
             for (size_t ti = 0; ti < b.vtx.size(); ++ti) {
                 const CTransaction& tx = *b.vtx[ti];
                 if (ti > 0) {
@@ -355,12 +365,13 @@ struct Harness {
                         if (!it->second.spk.empty()) elements.emplace(it->second.spk.begin(), it->second.spk.end());
                         spenders[in.prevout] = {tx.GetHash(), bh};
                         running.erase(it);
+                        block_spent = true;
                     }
                 }
                 for (uint32_t o = 0; o < tx.vout.size(); ++o) {
                     const CScript& spk = tx.vout[o].scriptPubKey;
                     if (!spk.empty() && spk[0] != OP_RETURN) elements.emplace(spk.begin(), spk.end());
-                    if (b.height > 0 && !((spk.size() > 0 && spk[0] == OP_RETURN) || spk.size() > 10000)) running[COutPoint(tx.GetHash(), o)] = RefCoin{tx.vout[o].nValue, spk, b.height, ti == 0};
+                    if (b.height > 0 && !((spk.size() > 0 && spk[0] == OP_RETURN) || spk.size() > 10000)) { running[COutPoint(tx.GetHash(), o)] = RefCoin{tx.vout[o].nValue, spk, b.height, ti == 0}; created.emplace_back(tx.GetHash(), o); }
                 }
             }
             VCHECK(running == rep.utxo_at.at(bh), "c21.model", "model self-check: running UTXO differs from replay at height", b.height);
@@ -407,7 +418,19 @@ struct Harness {
                 VCHECK(stats->total_amount.has_value() && *stats->total_amount == total, "c21.coinstats", "total_amount model", total, "height", b.height, where);
                 VCHECK(stats->nBogoSize == bogo, "c21.coinstats", "bogosize", stats->nBogoSize, "model", bogo, "height", b.height, where);
                 uint256 mh;
-                { Phase ph2("model-muhash"); mh = ModelMuHash(running); }
+                {
+                    // product over the model UTXO at this height: recomputed from scratch whenever the block spent something, extended by the
+                    // new coins otherwise (same product, no division anywhere in the reference)
+                    Phase ph2("model-muhash");
+                    if (!have_acc || block_spent) {
+                        acc = 1;
+                        for (auto& [op, c] : running) acc = c21ref::MuMul(acc, Elem(op, c));
+                        have_acc = true;
+                    } else {
+                        for (auto& op : created) { auto it = running.find(op); if (it != running.end()) acc = c21ref::MuMul(acc, Elem(op, it->second)); }
+                    }
+                    mh = c21ref::MuFinalize(acc);
+                }
                 VCHECK(stats->hashSerialized == mh, "c21.coinstats-muhash", "height", b.height, "index", stats->hashSerialized.ToString(), "own", mh.ToString(), where);
             }
         }
@@ -421,7 +444,9 @@ struct Harness {
                 VCHECK((*r)->tx->GetHash() == sp.first && (*r)->block_hash == sp.second, "c21.spender", "outpoint", op.ToString(), "index says", (*r)->tx->GetHash().ToString(), "in",
                        (*r)->block_hash.ToString(), "active spender", sp.first.ToString(), "in", sp.second.ToString(), where);
             }
+            // only when the index is exactly at the tip: while it sits on a just-disconnected block, that block's spends are still (legitimately) indexed
             for (auto& [op, c] : running) {
+                if (!at_tip[SPI]) break;
                 auto r = Sp()->FindSpender(op);
                 st.steps++;
                 VCHECK(r.has_value() && !r->has_value(), "c21.spender-stale", "spender reported for an outpoint that is unspent on the active chain", op.ToString(), where);
